@@ -658,7 +658,12 @@ impl rustc_driver::Callbacks for Cb {
                 if vi > 0 {
                     out.push(',');
                 }
-                let _ = write!(out, "{{\"name\":{},\"fields\":[", esc(&v.name.to_string()));
+                let dv = if adt.is_enum() {
+                    format!("{}", adt.discriminant_for_variant(tcx, rustc_abi::VariantIdx::from_usize(vi)).val)
+                } else {
+                    "0".to_string()
+                };
+                let _ = write!(out, "{{\"name\":{},\"discr\":{},\"fields\":[", esc(&v.name.to_string()), dv);
                 for (fi, f) in v.fields.iter().enumerate() {
                     if fi > 0 {
                         out.push(',');
